@@ -128,6 +128,10 @@ func (association *Association) Replace(values ...interface{}) error {
 			if association.Unscope && oldBelongsToExpr != nil && association.Error == nil {
 				// a fresh statement: association.DB still carries what the update above left behind
 				tx := association.DB.Session(&Session{NewDB: true}).Where(oldBelongsToExpr)
+				if association.DB.Statement.Unscoped {
+					// the fresh statement keeps the Unscoped of the handle the association was opened on
+					tx = tx.Unscoped()
+				}
 				// a record that is (still or again) the target keeps its row
 				if _, tvs := schema.GetIdentityFieldValuesMapFromValues(association.DB.Statement.Context, values, rel.FieldSchema.PrimaryFields); len(tvs) > 0 {
 					tcolumn, tvalues := schema.ToQueryValues(rel.FieldSchema.Table, rel.FieldSchema.PrimaryFieldDBNames, tvs)
